@@ -27,12 +27,26 @@ func instrument(file, real, out string, stmtSites []string) error {
 	if err != nil {
 		return err
 	}
+	// local name under which the file imports the zzverif package (added below if missing)
+	zzName := ""
+	for _, im := range f.Imports {
+		if im.Path.Value == `"github.com/krotik/ecal/zzverif"` {
+			zzName = "zzverif"
+			if im.Name != nil {
+				zzName = im.Name.Name
+			}
+		}
+	}
+	needImport := zzName == ""
+	if needImport {
+		zzName = "zzverif"
+	}
 	site := func(p token.Pos) ast.Expr {
 		pos := fset.Position(p)
 		return &ast.BasicLit{Kind: token.STRING, Value: fmt.Sprintf("%q", fmt.Sprintf("%s:%d:%d", pos.Filename, pos.Line, pos.Column))}
 	}
 	call := func(fn string, arg ast.Expr) ast.Stmt {
-		return &ast.ExprStmt{X: &ast.CallExpr{Fun: &ast.SelectorExpr{X: ast.NewIdent("zzverif"), Sel: ast.NewIdent(fn)}, Args: []ast.Expr{arg}}}
+		return &ast.ExprStmt{X: &ast.CallExpr{Fun: &ast.SelectorExpr{X: ast.NewIdent(zzName), Sel: ast.NewIdent(fn)}, Args: []ast.Expr{arg}}}
 	}
 	isSync := func(c *ast.CallExpr) bool {
 		se, ok := c.Fun.(*ast.SelectorExpr)
@@ -110,7 +124,9 @@ func instrument(file, real, out string, stmtSites []string) error {
 		}
 		return true
 	})
-	astutil.AddImport(fset, f, "github.com/krotik/ecal/zzverif")
+	if needImport {
+		astutil.AddImport(fset, f, "github.com/krotik/ecal/zzverif")
+	}
 	var buf bytes.Buffer
 	if err := printer.Fprint(&buf, fset, f); err != nil {
 		return err
